@@ -16,9 +16,15 @@ class GVal:
 
 
 class GDom:
-    def __init__(self, sort="bv", width=64):
+    def __init__(self, sort="bv", width=64, levels=False):
         self.sort = sort
         self.width = width
+        self.levels = levels    # formal doubling: generator keys are (name, level); Double shifts the level
+
+    def double(self, a):
+        if not self.levels:
+            return self.add(a, a)
+        return GVal({(k[0], k[1] + 1): v for k, v in a.coeffs.items()}, self)
 
     def term(self, v):
         if is_term(v):
